@@ -97,7 +97,8 @@ theorem cancelWaitingAll_succ (fuel : Nat) (s : State) (w : Nat) :
 
 /-- `StartTiming()` -/
 def startTiming (stp : State → Nat → State) (s : State) (t : Nat) : State :=
-  addTiming ((stp s t).setTh t (fun th => { th with ts := .timing })) t 0
+  if !(stp s t).alive t then stp s t
+  else addTiming ((stp s t).setTh t (fun th => { th with ts := .timing })) t 0
 
 theorem stoppedWaitFor_zero (s : State) (t name : Nat) (d : Bool) :
     stoppedWaitFor 0 s t name d = { s with outOfFuel := true } := by rw [stoppedWaitFor] <;> rfl
@@ -185,11 +186,15 @@ theorem unregisterAll_succ (fuel : Nat) (s : State) (src : Nat) :
 def restoreCur (s : State) (saved : Option Nat) : State :=
   { s with cur := saved.bind (fun c => if s.alive c then some c else none) }
 
+/-- `Execute` unless the thread was deleted by its own `Stop()` -/
+def execIfAlive (ev : State → Nat → State) (s : State) (t : Nat) : State :=
+  if s.alive t then ev s t else s
+
 theorem scriptExecuteInternal_zero (s : State) (t : Nat) :
     scriptExecuteInternal 0 s t = { s with outOfFuel := true } := by rw [scriptExecuteInternal] <;> rfl
 theorem scriptExecuteInternal_succ (fuel : Nat) (s : State) (t : Nat) :
     scriptExecuteInternal (fuel + 1) s t =
-      executeRunning fuel (restoreCur (execVM fuel (stop fuel { s with cur := some t } t) t) s.cur) := by
+      executeRunning fuel (restoreCur (execIfAlive (execVM fuel) (stop fuel { s with cur := some t } t) t) s.cur) := by
   rw [scriptExecuteInternal] <;> rfl
 
 theorem executeRunning_zero (s : State) : executeRunning 0 s = { s with outOfFuel := true } := by rw [executeRunning] <;> rfl
@@ -250,6 +255,10 @@ def regWait (stp : State → Nat → State) (s : State) (o n c : Nat) : State :=
 /-- `Wait(ms)` on thread `p` -/
 def waitOn (stp : State → Nat → State) (s : State) (p ms : Nat) : State :=
   vmSuspend (addTiming ((stp s p).setTh p (fun th => { th with ts := .timing })) p ms) p
+
+/-- `Wait(ms)` sent to another thread `p`: returns when `p` was deleted by its own `Stop()` -/
+def waitOnGuarded (stp : State → Nat → State) (s : State) (p ms : Nat) : State :=
+  if !(stp s p).alive p then stp s p else waitOn stp s p ms
 
 /-- the result cell of a host call when its thread ends -/
 def endResult (s : State) (th : Th) (ev : EndV) : State :=
@@ -331,7 +340,7 @@ theorem exec_pause (fuel : Nat) (s : State) (t : Nat) (th : Th) :
 theorem exec_waitParent (fuel : Nat) (s : State) (t : Nat) (th : Th) (ms : Nat) :
     exec (fuel + 1) s t th (.waitParent ms) =
       if th.parent == 0 || !s.alive th.parent || !s.hasVM th.parent then s
-      else waitOn (stop fuel) s th.parent ms := by rw [exec] <;> rfl
+      else waitOnGuarded (stop fuel) s th.parent ms := by rw [exec] <;> rfl
 theorem exec_waittillParent (fuel : Nat) (s : State) (t : Nat) (th : Th) (names : List Nat) :
     exec (fuel + 1) s t th (.waittillParent names) =
       if th.parent == 0 || !s.alive th.parent then s else
